@@ -92,13 +92,53 @@ pub fn cmd_sweep(args: &[String]) -> i32 {
     });
     let (mut calls, mut viol, mut kept) = (0u64, vec![], vec![]);
     for (c, v, k) in results { calls += c; viol.extend(v); kept.extend(k) }
+    // structured hostile inputs: generated items (definite / indefinite containers nested both ways, tags, chunked strings) in which one
+    // or two head arguments are replaced by boundary values (2^63, 2^64 - 1, ...), framing is flipped, a sibling is spliced in, the tail cut
+    let nitems = if thorough { 30000 } else { 2500 };
+    let mut structured: Vec<Vec<u8>> = Vec::new();
+    {
+        use crate::cbgen::*;
+        let mut rng = StdRng::seed_from_u64(seed ^ 0x5717);
+        for i in 0..nitems {
+            let o = Opts { max_depth: 6, max_nodes: if i % 8 == 0 { 40 } else { 12 }, bad_utf8: i % 11 == 0, ..Opts::default() };
+            let it = gen_item(&mut rng, &o);
+            // (a seeded handful of the mutations of each item: all of them would be hundreds per item)
+            let muts = typed_mutations(&mut rng, &it);
+            let take = if thorough { 24 } else { 10 };
+            for k in 0..take.min(muts.len()) { let m = &muts[if muts.len() <= take { k } else { rng.gen_range(0..muts.len()) }]; if m.len() <= 64 { structured.push(m.clone()) } }
+            // a huge declared length right behind the switch of skip() into its stack mode
+            if i % 16 == 0 {
+                let arg = [0x8000_0000_0000_0000u64, u64::MAX, 0x7fff_ffff_ffff_ffff, 1 << 32][rng.gen_range(0..4)];
+                for lead in [&[0x82u8, 0x9f][..], &[0xa1, 0x9f], &[0x82, 0xbf, 0x00], &[0x83, 0x00, 0x9f, 0x00], &[0x9f, 0x82, 0x9f]] {
+                    for mj in [4u8, 5, 2, 3, 6] { let mut b = lead.to_vec(); head(&mut b, mj, arg, 8); structured.push(b.clone()); b.extend_from_slice(&it); if b.len() <= 64 { structured.push(b) } }
+                }
+            }
+        }
+    }
+    let ninputs = inputs.len() + structured.len();
+    let schunks: Vec<&[Vec<u8>]> = structured.chunks((structured.len() + nthreads - 1) / nthreads.max(1)).collect();
+    let sresults: Vec<(u64, Vec<Value>, Vec<Value>)> = std::thread::scope(|s| {
+        let hs: Vec<_> = schunks.iter().enumerate().map(|(ti, ch)| s.spawn(move || {
+            std::panic::set_hook(Box::new(|_| {}));
+            let mut rng = StdRng::seed_from_u64(seed ^ 0xabcd ^ (ti as u64) << 32);
+            let (mut calls, mut viol, mut kept) = (0u64, vec![], vec![]);
+            for buf in ch.iter() {
+                let keep = rng.gen_range(0..(sample_every / 8).max(1)) == 0;
+                calls += run_all(buf, 0, keep, &mut viol, &mut kept);
+                if viol.len() > 200 { break }
+            }
+            (calls, viol, kept)
+        })).collect();
+        hs.into_iter().map(|h| h.join().unwrap()).collect()
+    });
+    for (c, v, k) in sresults { calls += c; viol.extend(v); kept.extend(k) }
     let mut shard = 0;
     for (i, ev) in viol.iter().chain(kept.iter()).enumerate() {
         if i % 4000 == 0 { shard = i / 4000 }
         let mut f = std::fs::OpenOptions::new().create(true).append(true).open(format!("{}/shard-{:04}.ndjson", dir, shard)).unwrap();
         writeln!(f, "{}", ev).unwrap();
     }
-    println!("{}", json!({"inputs": inputs.len(), "calls": calls, "monitor_violations": viol.len(), "violations": viol.iter().take(20).collect::<Vec<_>>(),
+    println!("{}", json!({"inputs": ninputs, "calls": calls, "monitor_violations": viol.len(), "violations": viol.iter().take(20).collect::<Vec<_>>(),
                          "events": viol.len() + kept.len(), "samples": kept.iter().take(3).collect::<Vec<_>>()}));
     0
 }
